@@ -142,6 +142,8 @@ class P(Prop):
         (MS, "TV.C04.popObs_total", "popObs(i) outside -size..size-1 raises IndexError and removes nothing; -size <= i < 0 returns and removes the observation size+i"),
         (MS, "TV.C04.insertAt_total", "insertObs(obs, i), EVERY integer i: never raises, the observation goes to the position i clamped as list.insert does (i > size -> size, i < 0 -> max(0, size+i)), the others keep their order"),
         (MS, "TV.C04.removeByIdx_index_error", "removeObsList(distinct indices whose largest is >= size): IndexError at the first deletion, nothing removed"),
+        (MS, "TV.C04.delLoop_partial", "the deletion loop of removeObsList on ANY integers (negative, out of range): the first k indices were deleted (a negative one counting from the CURRENT end), one observation each; what is left is that sub-sequence ALSO when IndexError is raised; returns (counter + k) iff k = len, otherwise raises at the k-th index, out of range for the list left"),
+        (MS, "TV.C04.removeByIdx_partial", "removeObsList(ANY list of integers): nothing removed and 0 returned (empty list / repeated index), or the loop runs over the indices in decreasing order d and the first k are deleted: returns k = len(tab), or raises IndexError at d[k] with these k deletions done (they stay done)"),
         (MS, "TV.C04.extractSpanTrack_empty", "extractSpanTime(empty track) raises IndexError"),
         # ---- the remaining list operations (Model/SeqMore.lean, Props/C04More.lean)
         (MM, "TV.C04.reverse_spec", "reverse() = all the observations, last first, with the source's table (= track[::-1]); every observation reads what it read in the source"),
@@ -161,7 +163,7 @@ class P(Prop):
         "CPython's slice.indices (PySlice_AdjustIndices) is a modelled contract (sliceBounds / sliceLen): getitemSlice_spec / getitemSlice_neg_spec are about the model's adjustment; the 'sliceidx' stream compares it with slice(a,b,c).indices(n) and len(range(...)) for every a, b in None, -n-3..n+3, 9 steps, n <= 8, and on random lengths up to 2^39",
         "(int)(size / number) in track / number is a float division: modelled as the integer quotient (exact below 2^53)",
         "(int)(math.log(N)/math.log(2)) = floor(log2 N) is a float computation outside the theorems: T1/T2 hold for any first step 2^j with 2*2^j <= N; the 'ilog' stream checks the expression for every N <= 2^16 (2^21 thorough) and around every 2^k, k < 40",
-        "arguments with no designated observation (negative indices / counts, index >= size, zero step, empty pattern) stay outside the property's ORACLE; what the code does there is now proved of the model operator by operator (Props/C04Slice.lean: which arguments raise, which clamped / wrapped selection the others make). Still only modelled and compared, without a theorem: removeObsList with a NEGATIVE index in a list of several (the deletions done before the IndexError stay done), a track holding the same observation twice",
+        "arguments with no designated observation (negative indices / counts, index >= size, zero step, empty pattern) stay outside the property's ORACLE; what the code does there is now proved of the model operator by operator (Props/C04Slice.lean: which arguments raise, which clamped / wrapped selection the others make). removeObsList with a NEGATIVE or out-of-range index in a list of several is now a theorem too (delLoop_partial / removeByIdx_partial: the deletions done before the IndexError stay done, negative indices count from the current end). Still only modelled and compared, without a theorem: a track holding the same observation twice",
     ]
     modelled = ("Track.__getInsertionIndex (dichotomy + two fix-up loops), insertObs (with and without index) / insertObsInChronoOrder / addObs, "
                 "sort (np.argsort = trusted call with the contract 'sorting permutation'), sortRadix (the five fixed bucket passes and the year pass over min..max year of the track, on positions), "
